@@ -4,7 +4,7 @@ Deliberately dumb: attribute reads and constructor calls only."""
 from __future__ import annotations
 
 from .core import outcome, octs, after_pack
-from .probe import decode_other
+from .probe import decode_other, poison
 
 
 def _hdr_proj(h):
@@ -20,6 +20,28 @@ def _mk_hdr(h, via="ctor"):
         return SpacePacketHeader.from_composite_fields(
             PacketId(PacketType(h["type"]), bool(h["shf"]), h["apid"]),
             PacketSeqCtrl(SequenceFlags(h["flags"]), h["count"]), h["dlen"], h["ver"])
+    if via in ("mutate", "setters"):
+        # a history: another header whose views are used once (pack, ==, packet_len), then brought to the wanted values -
+        # "mutate": through the PacketId / PacketSeqCtrl objects the header hands out; "setters": through the header's setters
+        o = SpacePacketHeader(packet_type=PacketType(1 - h["type"]), apid=(h["apid"] + 1) % 2048,
+                              seq_count=(h["count"] + 1) % 16384, data_len=(h["dlen"] + 1) % 65536,
+                              sec_header_flag=not bool(h["shf"]), seq_flags=SequenceFlags((h["flags"] + 1) % 4),
+                              ccsds_version=h["ver"])            # the version has no setter
+        o.pack(), o == o, o.packet_len, o.packet_id.raw(), o.packet_seq_control.raw()
+        if via == "mutate":
+            o.packet_id.apid = h["apid"]
+            o.packet_id.ptype = PacketType(h["type"])
+            o.packet_id.sec_header_flag = bool(h["shf"])
+            o.packet_seq_control.seq_count = h["count"]
+            o.packet_seq_control.seq_flags = SequenceFlags(h["flags"])
+        else:
+            o.apid = h["apid"]
+            o.packet_type = PacketType(h["type"])
+            o.sec_header_flag = bool(h["shf"])
+            o.seq_count = h["count"]
+            o.seq_flags = SequenceFlags(h["flags"])
+        o.data_len = h["dlen"]
+        return o
     return SpacePacketHeader(packet_type=PacketType(h["type"]), apid=h["apid"], seq_count=h["count"],
                              data_len=h["dlen"], sec_header_flag=bool(h["shf"]),
                              seq_flags=SequenceFlags(h["flags"]), ccsds_version=h["ver"])
@@ -42,6 +64,9 @@ def mk_tc(p, via="ctor"):
     from spacepackets.ecss.tc import PusTc, PusTcDataFieldHeader
     from spacepackets.ccsds.spacepacket import SpacePacketHeader, PacketType
     data = bytes(p["data"])
+    if via == "bytearray":        # the caller keeps its application data in a bytearray (e.g. a receive buffer)
+        return PusTc(service=p["service"], subservice=p["subservice"], apid=p["apid"], app_data=bytearray(data),
+                     seq_count=p["seq"], source_id=p["source"], ack_flags=p["ack"])
     if via == "sph":
         sph = SpacePacketHeader(packet_type=PacketType.TM, apid=p["apid"], seq_count=p["seq"], data_len=0)
         return PusTc.from_sp_header(sph, service=p["service"], subservice=p["subservice"], app_data=data,
@@ -74,6 +99,21 @@ def mk_tm(p, via="tm"):
         return Service17Tm(apid=p["apid"], subservice=p["subservice"], timestamp=bytes(p["stamp"]),
                            ssc=p["seq"], source_data=bytes(p["data"]), packet_version=p["ver"],
                            space_time_ref=p["timeref"], destination_id=p["dest"])
+    if via == "bytearray":
+        return PusTm(service=p["service"], subservice=p["subservice"], timestamp=bytearray(p["stamp"]),
+                     source_data=bytearray(p["data"]), apid=p["apid"], seq_count=p["seq"],
+                     message_counter=p["msgcnt"], space_time_ref=p["timeref"], destination_id=p["dest"],
+                     packet_version=p["ver"])
+    if via == "decoded-setter":
+        # the object comes out of unpack (its time stamp length is whatever was handed to the decoder), then the source
+        # data setter is used
+        tm0 = PusTm(service=p["service"], subservice=p["subservice"], timestamp=bytes(p["stamp"]),
+                    source_data=bytes(p["data"]) + b"\x55\x55\x55", apid=p["apid"], seq_count=p["seq"],
+                    message_counter=p["msgcnt"], space_time_ref=p["timeref"], destination_id=p["dest"],
+                    packet_version=p["ver"])
+        tm = PusTm.unpack(bytes(tm0.pack()), len(p["stamp"]))
+        tm.tm_data = bytes(p["data"])
+        return tm
     if via == "setter":
         tm = PusTm(service=p["service"], subservice=p["subservice"], timestamp=bytes(p["stamp"]),
                    source_data=bytes(p["data"]) + b"\x55\x55", apid=(p["apid"] + 1) % 2048, seq_count=p["seq"],
@@ -162,6 +202,7 @@ def op_tc_rt(a):
     from spacepackets.ecss import check_pus_crc
 
     def run():
+        poison("tc")
         tc = mk_tc(a["p"], a.get("via", "ctor"))
         sp = tc.to_space_packet().pack()          # before pack(): must not depend on what an earlier pack() left behind
         raw = tc.pack()
@@ -171,7 +212,10 @@ def op_tc_rt(a):
         return after_pack(raw, lambda: rest(tc, raw, plen, sp))
 
     def rest(tc, raw, plen, sp):
-        dec = PusTc.unpack(bytes(raw) + bytes(a["sfx"]))
+        buf = bytes(raw) + bytes(a["sfx"])
+        dec = PusTc.unpack(bytearray(buf) if a.get("via") == "bytearray" else buf)
+        if a.get("via") == "bytearray":
+            dec.to_space_packet().pack()          # the view of a decoded object must leave it as it is
         decode_other("tc", PusTc.unpack)
         return {"octets": octs(raw), "plen": plen, "sp": octs(sp), "crcok": bool(check_pus_crc(bytes(raw))),
                 "dec": tc_proj(dec), "dplen": dec.packet_len, "eq": bool(dec == tc) and bool(tc == dec),
@@ -205,6 +249,7 @@ def op_tm_rt(a):
 
     def run():
         via = a.get("via", "tm")
+        poison("tm")
         tm = mk_tm(a["p"], via)
         sp = _inner_tm(tm).to_space_packet().pack()
         raw = tm.pack()
@@ -216,7 +261,10 @@ def op_tm_rt(a):
     def rest(tm, raw, plen, sp, via):
         cls = Service17Tm if via == "srv17" else PusTm
         tsl = len(a["p"]["stamp"])
-        dec = cls.unpack(bytes(raw) + bytes(a["sfx"]), tsl)
+        buf = bytes(raw) + bytes(a["sfx"])
+        dec = cls.unpack(bytearray(buf) if via == "bytearray" else buf, tsl)
+        if via == "bytearray":
+            _inner_tm(dec).to_space_packet().pack()
         decode_other("srv17" if via == "srv17" else "tm", lambda b: cls.unpack(b, 7))
         eq = bool(_inner_tm(dec) == _inner_tm(tm)) and bool(_inner_tm(tm) == _inner_tm(dec))
         return {"octets": octs(raw), "plen": plen, "sp": octs(sp), "crcok": bool(check_pus_crc(bytes(raw))),
